@@ -14,6 +14,8 @@ use kvarn::csp::{ComputedRule, Rule as CspRule, Value as CspValue, ValueSet};
 use kvarn::extensions::RuleSet;
 use kvarn::prelude::*;
 use std::sync::atomic::{AtomicUsize, Ordering};
+use std::sync::Arc;
+use std::time::Duration;
 
 fn ood() -> X {
     X::L(vec![X::N(96)])
@@ -354,11 +356,307 @@ fn nonce_page(x: &X) -> X {
     })
 }
 
+// -------------------------------------------------------------------------------------------
+// the send path: kvarn::handle_connection over a loopback TCP pair
+// -------------------------------------------------------------------------------------------
+fn conn_rt() -> &'static tokio::runtime::Runtime {
+    static RT: std::sync::OnceLock<tokio::runtime::Runtime> = std::sync::OnceLock::new();
+    RT.get_or_init(|| {
+        tokio::runtime::Builder::new_multi_thread()
+            .worker_threads(2)
+            .enable_all()
+            .build()
+            .expect("tokio runtime")
+    })
+}
+
+struct ConnHandler {
+    path: String,
+    status: u16,
+    headers: Vec<(HeaderName, HeaderValue)>,
+    cache: bool,
+    body: Bytes,
+}
+
+struct ConnReq {
+    method: u128,
+    path: Vec<u8>,
+    range: u128,
+    ims: bool,
+}
+
+struct WireReply {
+    status: u16,
+    headers: Vec<(Vec<u8>, Vec<u8>)>,
+    body: Vec<u8>,
+}
+
+struct ConnClient {
+    stream: Option<tokio::net::TcpStream>,
+    desc: Arc<PortDescriptor>,
+}
+impl ConnClient {
+    async fn connect(&mut self) -> std::io::Result<()> {
+        let listener = tokio::net::TcpListener::bind("127.0.0.1:0").await?;
+        let addr = listener.local_addr()?;
+        let client = tokio::net::TcpStream::connect(addr).await?;
+        let (server_end, peer) = listener.accept().await?;
+        let desc = self.desc.clone();
+        tokio::spawn(async move {
+            let _ = kvarn::handle_connection(kvarn::Incoming::Tcp(server_end), peer, desc, || true).await;
+        });
+        self.stream = Some(client);
+        Ok(())
+    }
+    /// Sends one request; reads one framed response.  None = closed without an answer.
+    async fn exchange(&mut self, r: &ConnReq) -> std::io::Result<Option<WireReply>> {
+        use tokio::io::{AsyncReadExt, AsyncWriteExt};
+        let wait = Duration::from_secs(8);
+        if self.stream.is_none() {
+            self.connect().await?;
+        }
+        let s = self.stream.as_mut().unwrap();
+        let method: &[u8] = match r.method {
+            0 => b"GET",
+            1 => b"HEAD",
+            _ => b"POST",
+        };
+        let mut req = Vec::new();
+        req.extend_from_slice(method);
+        req.push(b' ');
+        req.extend_from_slice(&r.path);
+        req.extend_from_slice(b" HTTP/1.1\r\nHost: localhost\r\n");
+        match r.range {
+            0 => {}
+            1 => req.extend_from_slice(b"Range: bytes=0-3\r\n"),
+            _ => req.extend_from_slice(b"Range: bytes=2000-2999\r\n"),
+        }
+        if r.ims {
+            req.extend_from_slice(b"If-Modified-Since: Fri, 01 Jan 2100 00:00:00 GMT\r\n");
+        }
+        if r.method >= 2 {
+            req.extend_from_slice(b"Content-Length: 0\r\n");
+        }
+        req.extend_from_slice(b"\r\n");
+        s.write_all(&req).await?;
+        let mut buf = Vec::new();
+        let mut tmp = [0u8; 4096];
+        let head_end;
+        loop {
+            if let Some(p) = buf.windows(4).position(|w| w == b"\r\n\r\n") {
+                head_end = p + 4;
+                break;
+            }
+            let n = match tokio::time::timeout(wait, s.read(&mut tmp)).await {
+                Ok(Ok(n)) => n,
+                Ok(Err(e)) if e.kind() == std::io::ErrorKind::ConnectionReset => 0,
+                Ok(Err(e)) => return Err(e),
+                Err(_) => return Err(std::io::Error::new(std::io::ErrorKind::TimedOut, "no response head")),
+            };
+            if n == 0 {
+                self.stream = None;
+                return if buf.is_empty() {
+                    Ok(None)
+                } else {
+                    Err(std::io::Error::new(std::io::ErrorKind::UnexpectedEof, "partial head"))
+                };
+            }
+            buf.extend_from_slice(&tmp[..n]);
+        }
+        let head = buf[..head_end - 4].to_vec();
+        let mut lines = head.split(|b| *b == b'\n').map(|l| l.strip_suffix(b"\r").unwrap_or(l));
+        let status_line = lines.next().unwrap_or(b"");
+        let status: u16 = std::str::from_utf8(status_line)
+            .ok()
+            .and_then(|l| l.split(' ').nth(1))
+            .and_then(|s| s.parse().ok())
+            .unwrap_or(0);
+        let mut headers = Vec::new();
+        for l in lines {
+            if let Some(c) = l.iter().position(|b| *b == b':') {
+                let name = l[..c].to_ascii_lowercase();
+                let mut v = &l[c + 1..];
+                while v.first() == Some(&b' ') {
+                    v = &v[1..];
+                }
+                headers.push((name, v.to_vec()));
+            }
+        }
+        let get = |n: &[u8]| headers.iter().find(|(k, _)| k == n).map(|(_, v)| v.clone());
+        let len: usize = get(b"content-length")
+            .and_then(|v| String::from_utf8(v).ok())
+            .and_then(|v| v.trim().parse().ok())
+            .unwrap_or(0);
+        let close = get(b"connection").map_or(false, |v| v.to_ascii_lowercase().windows(5).any(|w| w == b"close"));
+        let has_body = r.method != 1 && status != 304 && !(100..200).contains(&status) && status != 204;
+        let want = if has_body { len } else { 0 };
+        while buf.len() < head_end + want {
+            let n = match tokio::time::timeout(wait, s.read(&mut tmp)).await {
+                Ok(Ok(n)) => n,
+                Ok(Err(e)) => return Err(e),
+                Err(_) => return Err(std::io::Error::new(std::io::ErrorKind::TimedOut, "no response body")),
+            };
+            if n == 0 {
+                return Err(std::io::Error::new(std::io::ErrorKind::UnexpectedEof, "partial body"));
+            }
+            buf.extend_from_slice(&tmp[..n]);
+        }
+        let body = buf[head_end..head_end + want].to_vec();
+        if close || buf.len() > head_end + want {
+            // start the next request on a fresh connection
+            self.stream = None;
+        }
+        Ok(Some(WireReply { status, headers, body }))
+    }
+}
+
+/// input: (L adds (B server) (L handler ...) (L request ...))
+///   handler = (L (B path) (N status) (L (L (B name) (B value)) ...) (N cache) (N nonce) (B body))
+///   request = (L (N method) (B path) (N range) (N ims))
+/// output: Ok (L (L (N status) security-headers body-of-a-200/206-GET) ...)
+fn conn(x: &X) -> X {
+    let l = match x.as_l() {
+        Some(l) if l.len() == 4 => l,
+        _ => return X::bad(),
+    };
+    let server = match l[1].as_b().map(utf8) {
+        Some(Some(s)) if HeaderValue::from_str(s).is_ok() => s.to_owned(),
+        Some(_) => return ood(),
+        None => return X::bad(),
+    };
+    let mut handlers = Vec::new();
+    for h in match l[2].as_l() { Some(h) => h, None => return X::bad() } {
+        let h = match h.as_l() {
+            Some(h) if h.len() == 6 => h,
+            _ => return X::bad(),
+        };
+        let (path, status, hs, cache, nonce, body) =
+            match (h[0].as_b(), h[1].as_n(), h[2].as_l(), h[3].as_n(), h[4].as_n(), h[5].as_b()) {
+                (Some(p), Some(st), Some(hs), Some(c), Some(n), Some(b)) => (p, st, hs, c, n, b),
+                _ => return X::bad(),
+            };
+        let path = match utf8(path) {
+            Some(p) => p.to_owned(),
+            None => return ood(),
+        };
+        if StatusCode::from_u16(status as u16).is_err() {
+            return ood();
+        }
+        let mut headers = Vec::new();
+        for e in hs {
+            match e.as_l() {
+                Some([n, v]) => match (n.as_b(), v.as_b()) {
+                    (Some(n), Some(v)) => match (HeaderName::from_bytes(n), HeaderValue::from_bytes(v)) {
+                        (Ok(n), Ok(v)) => headers.push((n, v)),
+                        _ => return ood(),
+                    },
+                    _ => return X::bad(),
+                },
+                _ => return X::bad(),
+            }
+        }
+        let mut data = Vec::new();
+        if nonce == 1 {
+            data.extend_from_slice(b"!> nonce\n");
+        }
+        data.extend_from_slice(body);
+        handlers.push(ConnHandler { path, status: status as u16, headers, cache: cache == 1, body: Bytes::from(data) });
+    }
+    let mut reqs = Vec::new();
+    for r in match l[3].as_l() { Some(r) => r, None => return X::bad() } {
+        match r.as_l() {
+            Some([m, p, rg, i]) => match (m.as_n(), p.as_b(), rg.as_n(), i.as_n()) {
+                (Some(m), Some(p), Some(rg), Some(i)) => {
+                    if !p.starts_with(b"/") || p.iter().any(|c| !c.is_ascii_graphic()) {
+                        return ood();
+                    }
+                    reqs.push(ConnReq { method: m, path: p.to_vec(), range: rg, ims: i == 1 })
+                }
+                _ => return X::bad(),
+            },
+            _ => return X::bad(),
+        }
+    }
+    let built = crate::guarded(|| {
+        let csp = match csp_set(&l[0]) {
+            Some(c) => c,
+            None => return X::bad(),
+        };
+        let mut ext = extensions_for(csp, &server);
+        for h in handlers {
+            let path = h.path.clone();
+            let h = Arc::new(h);
+            ext.add_prepare_single(
+                path,
+                prepare!(_, _, _, _, move |h: Arc<ConnHandler>| {
+                    let mut r = Response::new(h.body.clone());
+                    *r.status_mut() = StatusCode::from_u16(h.status).unwrap();
+                    for (n, v) in &h.headers {
+                        r.headers_mut().append(n.clone(), v.clone());
+                    }
+                    if h.cache {
+                        FatResponse::cache(r)
+                    } else {
+                        FatResponse::no_cache(r)
+                    }
+                }),
+            );
+        }
+        let mut opts = host::Options::default();
+        opts.disable_fs();
+        let mut host = Host::unsecure("localhost", "/nonexistent", ext, opts);
+        host.limiter.disable();
+        CONN_COLL.with(|c| *c.borrow_mut() = Some(HostCollection::builder().insert(host).build()));
+        X::N(0)
+    });
+    if built != X::N(0) {
+        return built;
+    }
+    let coll = CONN_COLL.with(|c| c.borrow_mut().take().unwrap());
+    let desc = Arc::new(PortDescriptor::unsecure(8080, coll));
+    let out = conn_rt().block_on(async move {
+        let mut client = ConnClient { stream: None, desc };
+        let mut out = Vec::new();
+        for r in &reqs {
+            match client.exchange(r).await {
+                Err(e) => return Err(X::L(vec![X::N(93), X::b(format!("{:?}", e.kind()))])),
+                // the connection was closed without an answer: what a panic in the pipeline looks like
+                Ok(None) => return Err(X::panic()),
+                Ok(Some(w)) => {
+                    let mut hs: Vec<(Vec<u8>, Vec<u8>)> = w
+                        .headers
+                        .into_iter()
+                        .filter(|(k, _)| {
+                            matches!(&k[..], b"content-security-policy" | b"csp-nonce" | b"referrer-policy" | b"server")
+                        })
+                        .collect();
+                    hs.sort();
+                    let body = if r.method == 0 && (w.status == 200 || w.status == 206) { w.body } else { Vec::new() };
+                    out.push(X::L(vec![
+                        X::n(w.status),
+                        X::L(hs.into_iter().map(|(k, v)| X::L(vec![X::B(k), X::B(v)])).collect()),
+                        X::B(body),
+                    ]));
+                }
+            }
+        }
+        Ok(out)
+    });
+    match out {
+        Ok(v) => X::ok(X::L(v)),
+        Err(e) => e,
+    }
+}
+thread_local! {
+    static CONN_COLL: std::cell::RefCell<Option<Arc<HostCollection>>> = std::cell::RefCell::new(None);
+}
+
 pub fn dispatch(comp: &str, x: &X) -> Option<X> {
     Some(match comp {
         "ruleset.get" => ruleset_get(x),
         "csp.package" => csp_package(x),
         "nonce.page" => nonce_page(x),
+        "c14.conn" => conn(x),
         _ => return None,
     })
 }
